@@ -1,5 +1,12 @@
 """C07 driver: calls the REAL downscalers and RECORDS (no judging).
 
+Downscalers are always obtained through downscaling.get_downscaler: by the
+explicit method name, or - method "auto" - through the selection path of the
+command-line tools, get_downscaler("auto", info, options) with the info's
+type attribute and an options dictionary carrying outside_value.  The case
+then keeps method "auto" + itype; the documented selection rule is applied by
+TLC (Trace_Downscale.Eff), not here.
+
 Voxel values travel to TLC as exact scaled integers: plain naturals for
 uint8 / uint16 cases (enc "nat"), <<sign, magnitude bits>> otherwise
 (enc "sm").  float32 cases are scaled by one power of two per case so that
@@ -44,8 +51,15 @@ def _enc(fr, unit_bits, enc):
     return [1 if n < 0 else 0, bits(abs(n))]
 
 
-def get_downscaler(method, outside):
+def get_downscaler(method, outside, itype="image"):
+    """method "auto": the selection path of the command-line tools -
+    get_downscaler("auto", info, options) with the info's type attribute and
+    the options dictionary carrying the outside value (as vars(args) does)."""
     from neuroglancer_scripts import downscaling
+    if method == "auto":
+        return downscaling.get_downscaler(
+            "auto", {"type": itype, "data_type": "uint8", "num_channels": 1, "scales": []},
+            {"downscaling_method": "auto", "outside_value": outside})
     if method == "average":
         return downscaling.get_downscaler("average", options={"outside_value": outside})
     return downscaling.get_downscaler(method)
@@ -63,8 +77,11 @@ def frac_bits_of(arr, outside):
     return s
 
 
-def run_case(method, factors, outside, arr):
-    """Call the real downscaler; return (case for TLC, raw record)."""
+def run_case(method, factors, outside, arr, itype="image"):
+    """Call the real downscaler; return (case for TLC, raw record).
+    method may be "auto" (with itype = the info's type attribute): the case
+    then carries method "auto" + itype and TLC applies the documented
+    selection rule."""
     arr = np.asarray(arr)
     dt = arr.dtype
     kind = "float" if dt.kind == "f" else "int"
@@ -76,16 +93,16 @@ def run_case(method, factors, outside, arr):
     case = {"method": method, "f": [int(x) for x in factors],
             "pad": "edge" if outside is None else "const",
             "ov": _enc(exact(0 if outside is None else outside), unit, enc),
-            "kind": kind, "enc": enc, "dtype": dt.name, "shape": list(arr.shape),
+            "kind": kind, "enc": enc, "dtype": dt.name, "itype": itype, "shape": list(arr.shape),
             "data": [_enc(exact(x), unit, enc) for x in arr.ravel().tolist()],
             "exc": "", "oshape": [], "odtype": "", "out": []}
     rec = {"method": method, "factors": list(factors), "outside": outside, "dtype": dt.name,
-           "shape": list(arr.shape), "unit_bits": unit, "out": None}
+           "shape": list(arr.shape), "unit_bits": unit, "out": None, "itype": itype}
     before = arr.copy()
     try:
         with warnings.catch_warnings():
             warnings.simplefilter("ignore")
-            ds = get_downscaler(method, outside)
+            ds = get_downscaler(method, outside, itype)
             res = ds.downscale(arr, tuple(factors))
         res = np.asarray(res)
         case["oshape"] = list(res.shape)
@@ -124,6 +141,13 @@ def outside_values(dtype):
     if np.dtype(dtype).kind == "f":
         return [None, 0.0, 7.0, -2.5]
     return [None, 0, 7, type_max(dtype)]
+
+
+def outside_values_out_of_type(dtype):
+    """outside values that are NOT values of the integer data type (weaker
+    reading: only shape / dtype / range clauses are judged for them)"""
+    mx = type_max(dtype)
+    return [-3, -1, mx + 1, mx + 745, 2 * mx + 1]
 
 
 def value_pool(rng, dtype):
